@@ -498,6 +498,35 @@ func c08Overlap(c *fw.Ctx, idx int) {
 // Whatever a collection declares, its bounds are those of the coordinates it holds now.
 func c08CollHistory(c *fw.Ctx, idx int) {
 	r := c.R
+	if idx%4000 == 7 {
+		// one line string inside hundreds to tens of thousands of nested collections
+		depth := []int{100, 1000, 4097, 10001, 10002, 12000, 20000, 65537}[r.Intn(8)]
+		layout := gen.StdLayouts[r.Intn(4)]
+		leaf := gen.Shape(r, model.LineString, layout, gen.SmallInt, gen.ShapeOpts{CoordFn: c08NoNaN, MaxPts: 4})
+		for leaf.IsEmpty() {
+			leaf = gen.Shape(r, model.LineString, layout, gen.SmallInt, gen.ShapeOpts{CoordFn: c08NoNaN, MaxPts: 4})
+		}
+		c.SetInput(map[string]any{"geometry": leaf.String(), "inside_nested_collections": depth})
+		var inner geom.T = leaf.BuildFlat()
+		for i := 0; i < depth; i++ {
+			inner = geom.NewGeometryCollection().MustPush(inner)
+		}
+		sb := newSemBox(104)
+		sb.addModel(leaf)
+		var b, b2 *geom.Bounds
+		if c.Guard("panic", func() {
+			b = inner.Bounds()
+			b2 = geom.NewBounds(geom.NoLayout).Extend(inner)
+		}) {
+			return
+		}
+		c.Count("bounds_of_deeply_nested_collections")
+		if !c08Compare(c, fmt.Sprintf("Bounds() of a line string inside %d nested collections", depth), b, layout, sb, true) {
+			return
+		}
+		c08Compare(c, fmt.Sprintf("Extend by a line string inside %d nested collections", depth), b2, layout, sb, true)
+		return
+	}
 	g := gen.Collection(r, gen.SmallInt, gen.CollOpts{
 		Shape:   gen.ShapeOpts{CoordFn: c08NoNaN, MaxPts: 4},
 		Layouts: gen.StdLayouts, MixLayouts: r.Bool(), MaxDepth: 3, MaxMembers: 3, WithRings: true,
